@@ -576,6 +576,8 @@ class VeriTNotEquiv1(Macro):
     def eval(self, args, prevs):
         pt = prevs[0]
         p1, p2 = args
+        if not pt.prop.is_not() or not pt.prop.arg.is_equals():
+            raise VeriTException("not_equiv1", "premise should be a negated equivalence")
         pt_p1, pt_p2 = pt.prop.arg.arg1, pt.prop.arg.arg
         if p1 == pt_p1 and p2 == pt_p2:
             return Thm(Or(p1, p2), pt.hyps)
@@ -601,8 +603,10 @@ class VeriTNotEquiv1(Macro):
     def eval(self, args, prevs):
         pt = prevs[0]
         p1, p2 = args
+        if not pt.prop.is_not() or not pt.prop.arg.is_equals():
+            raise VeriTException("not_equiv2", "premise should be a negated equivalence")
         pt_p1, pt_p2 = pt.prop.arg.arg1, pt.prop.arg.arg
-        if p1.arg == pt_p1 and p2.arg == pt_p2:
+        if p1 == Not(pt_p1) and p2 == Not(pt_p2):
             return Thm(Or(p1, p2), pt.hyps)
         else:
             raise VeriTException("not_equiv2", "unexpected goal %s" % Or(*args))
@@ -626,6 +630,8 @@ class Equiv1Macro(Macro):
     
     def eval(self, args, prevs):
         pt = prevs[0]
+        if not pt.prop.is_equals():
+            raise VeriTException("equiv1", "premise should be an equivalence")
         p1, p2 = pt.prop.args
         if Not(p1) == args[0] and p2 == args[1]:
             return Thm(Or(*args), pt.hyps)
@@ -649,6 +655,8 @@ class Equiv1Macro(Macro):
     
     def eval(self, args, prevs):
         pt = prevs[0]
+        if not pt.prop.is_equals():
+            raise VeriTException("equiv2", "premise should be an equivalence")
         p1, p2 = pt.prop.args
         if p1 == args[0] and Not(p2) == args[1]:
             return Thm(Or(*args), pt.hyps)
@@ -844,6 +852,8 @@ class EquivPos1(Macro):
 
     def eval(self, args, prevs=None):
         arg1, arg2, arg3 = args
+        if not arg1.is_not() or not arg1.arg.is_equals():
+            raise VeriTException("equiv_pos1", "the first literal should be a negated equivalence")
         eq_tm = arg1.arg
         if eq_tm.arg1 == arg2 and Not(eq_tm.arg) == arg3:
             return Thm(Or(*args))
@@ -863,6 +873,8 @@ class EquivPos2(Macro):
 
     def eval(self, args, prevs=None):
         arg1, arg2, arg3 = args
+        if not arg1.is_not() or not arg1.arg.is_equals():
+            raise VeriTException("equiv_pos2", "the first literal should be a negated equivalence")
         eq_tm = arg1.arg
         if Not(eq_tm.arg1) == arg2 and eq_tm.arg == arg3:
             return Thm(Or(*args))
